@@ -247,7 +247,8 @@ type c14DelRec struct {
 }
 
 // c14Engine embeds the real *EngineImpl (every method of the service's Engine interface is the real
-// one); the overridden methods only record virtual time / arguments / results around the real call.
+// one); the overridden methods only record virtual time / arguments / results around the real call
+// (and put the two "expired" lists, which the engine builds in map order, into id order).
 type c14Engine struct {
 	*EngineImpl
 	w           *c14World
@@ -279,6 +280,9 @@ func (r *c14Engine) ExpiredShards(nilShardMap *map[uint64]*meta.ShardDurationInf
 	r.called = true
 	r.expiredAt = time.Now()
 	res := r.EngineImpl.ExpiredShards(nilShardMap)
+	// The engine reports expired shards in Go map order. The list is handed to the service sorted by id, so
+	// that "the k-th catalogue call of the run" denotes the same call in every execution of a history.
+	sort.SliceStable(res, func(i, j int) bool { return res[i].ShardID < res[j].ShardID })
 	for _, id := range res {
 		r.expired = append(r.expired, id.ShardID)
 	}
@@ -292,6 +296,7 @@ func (r *c14Engine) ExpiredShards(nilShardMap *map[uint64]*meta.ShardDurationInf
 
 func (r *c14Engine) ExpiredIndexes(nilIndexMap *map[uint64]*meta.IndexDurationInfo) []*meta.IndexIdentifier {
 	res := r.EngineImpl.ExpiredIndexes(nilIndexMap)
+	sort.SliceStable(res, func(i, j int) bool { return res[i].Index.IndexID < res[j].Index.IndexID }) // as for ExpiredShards
 	for _, id := range res {
 		r.idxExpired = append(r.idxExpired, id.Index.IndexID)
 	}
@@ -605,7 +610,17 @@ func (w *c14World) write(ts time.Time, load bool) error {
 				// obligation except that whatever it re-creates falls under the removal obligation of x.
 				w.rep.Count("writes_routed_into_group_under_interrupted_deletion", 1)
 				if load {
-					if err := w.storeWrite(x.ShardID, ts.UnixNano()); err != nil {
+					var err error
+					func() {
+						defer func() { // may succeed, fail or crash, like a write concurrent with the deletion
+							if p := recover(); p != nil {
+								err = fmt.Errorf("panic: %v", p)
+								w.rep.Count("writes_into_group_under_interrupted_deletion_panicked", 1)
+							}
+						}()
+						err = w.storeWrite(x.ShardID, ts.UnixNano())
+					}()
+					if err != nil {
 						w.rep.Count("writes_into_group_under_interrupted_deletion_refused", 1)
 					} else if sh := w.dbpt().Shard(x.ShardID); sh != nil {
 						x.Loaded = true
